@@ -368,6 +368,7 @@ func (wd *world) dryRun(from ident, fn, input string) (panicked bool) {
 	defer func() {
 		if r := recover(); r != nil {
 			panicked = true
+			minersc.VerifC38ResetLocks()
 			lastPanic = fmt.Sprint(r) + "\n" + string(debug.Stack())
 		}
 	}()
